@@ -19,3 +19,18 @@ Theorem check_preserved_sound :
 Proof. exact check_preserved_sound_lemma. Qed.
 
 Print Assumptions check_preserved_sound.
+
+(* every subgraph of the model (WHILE / IF / CALL_ONCE models have several): same number of subgraphs,
+   and subgraph k of the output preserves subgraph k of the source in the sense of
+   check_preserved_sound (SubgraphPreserved is that conclusion, proofs/PreserveProofs.v).  The subgraph
+   indices inside WHILE / IF / CALL_ONCE options are option fields, hence part of os_sig. *)
+Theorem check_preserved_model_sound :
+  forall (src out : list gsum) (wit : list witness),
+  check_preserved_model src out wit = true ->
+  length out = length src /\
+  (forall k s o, nth_error src k = Some s -> nth_error out k = Some o ->
+     exists psi phi, nth_error wit k = Some (psi, phi) /\ SubgraphPreserved s o psi phi) /\
+  (forall k, (exists s, nth_error src k = Some s) <-> (exists o, nth_error out k = Some o)).
+Proof. exact check_preserved_model_sound_lemma. Qed.
+
+Print Assumptions check_preserved_model_sound.
